@@ -19,7 +19,7 @@ Theorem C03_poll : forall (fuel : nat) (x : rx) (rd : reader) (W : bytes),
       Inv x' (W ++ avail rd) /\ fstate x' = Idle /\ segs rd' = [] /\ ~ ended rd' /\ flags_same rd rd'
   | (FEnd, x', rd') =>
       (Inv x' (W ++ avail rd) /\ fstate x' = Idle /\ segs rd' = [] /\ ended rd' /\ flags_same rd rd') \/
-      (dead (W ++ avail rd) /\ flags_same rd rd')
+      (dead (W ++ avail rd) /\ flags_same rd rd' /\ nonempty_segs rd' /\ exists W', Inv x' W')
   | _ => False
   end.
 Proof. exact poll_spec. Qed.
